@@ -49,6 +49,8 @@ var Adjudication = []string{
 	"request cut in the middle of a 2-byte big-endian field: the outcome hinges on util.ReadUint16 (judged by C03) -> not compared, never a crash",
 	"requester without a backend connection: no response expected, side effects still compared",
 	"GetPlayerServer for an unknown player: Velocity sends nothing, BungeeCord answers with an empty server name; the property text sides with Velocity (no response)",
+	"string lengths: readUTF/writeUTF carry an UNSIGNED 16-bit byte length, so strings of 32768..65535 bytes are ordinary strings (compared like any other); a RESPONSE that would need a string of more than 65535 bytes cannot be written (Java raises UTFDataFormatException) -> not compared, never a crash",
+	"characters outside what UTF-8 and Java's modified UTF-8 encode identically (U+0000 as C0 80, supplementary characters as two 3-byte surrogates): Gate's ReadUTF/WriteUTF copy the bytes without transcoding, so such a request string reaches players as invalid UTF-8 (replacement characters) where BungeeCord delivers the character; generated for survival only, not compared (reported to the coordinator as a deviation, see DESIGN)",
 }
 
 // Server is a registered backend server.
@@ -118,6 +120,11 @@ type Expect struct {
 	Class string
 	// Sub is the decoded sub-channel ("" if unreadable).
 	Sub string
+	// MaxUTF is the byte length of the longest writeUTF field read from the request.
+	MaxUTF int
+	// NonPortableUTF: a request string contains U+0000 or a supplementary character (or bytes
+	// that are not modified UTF-8), which modified UTF-8 and UTF-8 encode differently.
+	NonPortableUTF bool
 }
 
 // ---- DataOutput --------------------------------------------------------------------------
@@ -166,6 +173,8 @@ type input struct {
 	b         []byte
 	off       int
 	halfShort bool // a 2-byte field had exactly one byte left
+	maxUTF    int  // longest string field read
+	nonPort   bool // a string field that UTF-8 and modified UTF-8 encode differently
 }
 
 func (in *input) rest() []byte { return in.b[in.off:] }
@@ -192,7 +201,34 @@ func (in *input) utf() (string, bool) {
 	}
 	raw := in.b[in.off : in.off+n]
 	in.off += n
+	if n > in.maxUTF {
+		in.maxUTF = n
+	}
+	if !portableUTF(raw) {
+		in.nonPort = true
+	}
 	return decodeModifiedUTF8(raw), true
+}
+
+// portableUTF reports whether the bytes are valid UTF-8 without U+0000 and without
+// supplementary characters, i.e. a string that modified UTF-8 and UTF-8 encode identically.
+func portableUTF(raw []byte) bool {
+	for i := 0; i < len(raw); {
+		c := raw[i]
+		if c == 0 {
+			return false
+		}
+		if c < 0x80 {
+			i++
+			continue
+		}
+		r, size := utf8.DecodeRune(raw[i:])
+		if r == utf8.RuneError && size <= 1 || r >= 0x10000 {
+			return false // includes C0 80 and the surrogate halves ED A0..BF xx
+		}
+		i += size
+	}
+	return true
 }
 
 func decodeModifiedUTF8(raw []byte) string {
@@ -347,10 +383,32 @@ func Respond(st State, requester string, channel string, data []byte) Expect {
 	if !IsBungeeChannel(channel) {
 		return Expect{Handled: false, Outcomes: []Outcome{{}}, Class: "other-channel"}
 	}
-	ex := Expect{Handled: true}
+	ex := respond(st, requester, data)
+	return ex
+}
+
+func respond(st State, requester string, data []byte) (ex Expect) {
+	ex = Expect{Handled: true}
 	self := st.player(requester)
 	in := &input{b: data}
 	none := []Outcome{{}}
+	overflow := false
+	// responses are assembled with writeUTF: a string of more than 65535 bytes cannot be written
+	AppendUTF := func(b []byte, s string) []byte {
+		if len(s) > 21845 && len(modifiedUTF8(s)) > 0xFFFF { // 3 bytes per UTF-16 unit at most
+			overflow = true
+		}
+		return AppendUTF(b, s)
+	}
+	defer func() {
+		ex.MaxUTF, ex.NonPortableUTF = in.maxUTF, in.nonPort
+		if overflow && ex.NotCompared == "" {
+			ex.NotCompared = "a response string exceeds 65535 bytes"
+		}
+		if in.nonPort && ex.NotCompared == "" {
+			ex.NotCompared = "request string with U+0000 / supplementary characters"
+		}
+	}()
 
 	sub, ok := in.utf()
 	if !ok {
